@@ -182,4 +182,71 @@ theorem pure_of_analyse_nil (summ rsumm : Summ) (f : Fn) (hw : (analyse summ rsu
   rw [hw] at this
   simp at this
 
+/-! ### what a result may share memory with -/
+
+/-- no top-level (replacing) binding of `x` in the body: its abstract set only grows -/
+def NoMust (x : Nat) (body : List Stmt) : Bool :=
+  body.all fun st => match st with
+    | .bind true y _ => y != x
+    | _ => true
+
+theorem get_mono_step (n : Nat) (summ rsumm : Summ) (a : AState) (st : Stmt) (x : Nat)
+    (hst : (match st with | .bind true y _ => y != x | _ => true) = true) :
+    ∀ o, o ∈ a.env.get x → o ∈ (step n summ rsumm a st).env.get x := by
+  intro o ho
+  cases st with
+  | bind m y src =>
+    cases m
+    · simp only [step, AEnv.get_cons]
+      by_cases hxy : x = y
+      · subst hxy; simp only [if_true, List.mem_append]; exact Or.inl ho
+      · simp only [hxy, if_false]; exact ho
+    · simp only [step, AEnv.get_cons]
+      have hne : x ≠ y := by
+        intro h; subst h; simp at hst
+      simp only [hne, if_false]; exact ho
+  | write y how => simpa [step] using ho
+  | call f args => simpa [step] using ho
+  | unknown why => simpa [step] using ho
+
+theorem get_mono_foldl (n : Nat) (summ rsumm : Summ) (x : Nat) (body : List Stmt) (hb : NoMust x body = true) (a : AState) :
+    ∀ o, o ∈ a.env.get x → o ∈ (body.foldl (step n summ rsumm) a).env.get x := by
+  induction body generalizing a with
+  | nil => intro o ho; simpa using ho
+  | cons st rest ih =>
+    intro o ho
+    simp only [NoMust, List.all_cons, Bool.and_eq_true] at hb
+    simp only [List.foldl_cons]
+    exact ih hb.2 _ o (get_mono_step n summ rsumm a st x hb.1 o ho)
+
+theorem execList_reach (n : Nat) (summ rsumm : Summ) (h0 : Nat → Nat) (x : Nat) (body : List Stmt) :
+    ∀ (c c' : CState) (a : AState), NoMust x body = true → Cover n c a → Frame n h0 c a →
+      ExecList n summ rsumm c body c' →
+      ∀ o, o ∈ c'.env x → o < n → o ∈ (body.foldl (step n summ rsumm) a).env.get x := by
+  induction body with
+  | nil =>
+    intro c c' a _ hc _ hex o ho hn
+    cases hex
+    simpa using hc x o ho hn
+  | cons st rest ih =>
+    intro c c' a hb hc hf hex o ho hn
+    cases hex with
+    | stop => exact get_mono_foldl n summ rsumm x (st :: rest) hb a o (hc x o ho hn)
+    | cons _ c1 _ _ _ h1 hrest =>
+      obtain ⟨hc1, hf1⟩ := step_preserves n summ rsumm h0 c c1 a st hc hf h1
+      simp only [NoMust, List.all_cons, Bool.and_eq_true] at hb
+      simpa using ih c1 c' _ hb.2 hc1 hf1 hrest o ho hn
+
+/-- **Soundness for results.**  Whatever the variable that collects the returned values reaches at the end of an
+execution (or where it stops), the argument regions among it are within the set the abstract interpreter computes:
+a callable whose analysis lists no parameter there hands back nothing that shares memory with an argument. -/
+theorem sound_reach (f : Fn) (summ rsumm : Summ) (hb : NoMust f.retVar f.body = true) (h0 : Nat → Nat) (c : CState)
+    (hex : ExecList f.nparams summ rsumm (initC f.nparams h0) f.body c) :
+    ∀ o, o ∈ c.env f.retVar → o < f.nparams → o ∈ (analyse summ rsumm f).2 := by
+  intro o ho hn
+  have := execList_reach f.nparams summ rsumm h0 f.retVar f.body (initC f.nparams h0) c _ hb
+    (init_cover f.nparams h0) (fun _ _ _ => rfl) hex o ho hn
+  simp only [analyse, List.mem_filter, List.mem_range]
+  exact ⟨hn, by simpa [run] using this⟩
+
 end PW.Effects
